@@ -7,8 +7,8 @@ use std::borrow::Cow;
 use super::RR;
 
 pub mod masks {
-    pub const RCODE_MASK: u32 = 0b0000_0000_0000_0000_0000_0000_1111_1111;
-    pub const VERSION_MASK: u32 = 0b0000_0000_0000_0000_1111_1111_0000_0000;
+    pub const RCODE_MASK: u32 = 0b1111_1111_0000_0000_0000_0000_0000_0000;
+    pub const VERSION_MASK: u32 = 0b0000_0000_1111_1111_0000_0000_0000_0000;
 }
 
 /// OPT is a pseudo-rr used to carry control information  
@@ -96,13 +96,13 @@ impl<'a> WireFormat<'a> for OPT<'a> {
 
 impl<'a> OPT<'a> {
     pub(crate) fn extract_rcode_from_ttl(ttl: u32, header: &Header) -> RCODE {
-        let mut rcode = (ttl & masks::RCODE_MASK) << 4;
+        let mut rcode = ((ttl & masks::RCODE_MASK) >> masks::RCODE_MASK.trailing_zeros()) << 4;
         rcode |= header.response_code as u32;
         RCODE::from(rcode as u16)
     }
 
     pub(crate) fn encode_ttl(&self, header: &Header) -> u32 {
-        let mut ttl: u32 = (header.response_code as u32 & masks::RCODE_MASK) >> 4;
+        let mut ttl: u32 = (header.response_code as u32 >> 4) << masks::RCODE_MASK.trailing_zeros();
         ttl |= (self.version as u32) << masks::VERSION_MASK.trailing_zeros();
         ttl
     }
